@@ -134,7 +134,7 @@ CHECKS = {
             "the result (success, bound values or error, own artifact bytes) must equal the result in the initial state. Bound: depth 4 "
             "(thorough 6); with the first 13 files the search closed (30 states), with the 19 of the sixth round it does not at depth 4 "
             "(e2_closed / e2_frontier_left in the evidence say what was left). E3: every ordered "
-            "sequence of 1..2 and a sixth of the length-3 sequences (thorough: all of length <= 4) in one `ucg build` invocation, run twice "
+            "sequence of 1..2 and a sixth of the length-3 sequences (thorough: all of length <= 3, and of length 4 over the first 13 files) in one `ucg build` invocation, run twice "
             "in the same directory, plus build -r, compared per file with the alone baseline, and the exit status.",
             "op_cache is left out of the state key: files do not change during a run, so states differing only there have the same futures. "
             "Per-file success in a batch is read from the error lines on stderr.",
